@@ -139,3 +139,75 @@ def run(cdrv, mode, case, infile, reffile, timeout=120):
         f.write(input_text(case))
     p = subprocess.run([cdrv, mode, infile, reffile], stdout=subprocess.PIPE, stderr=subprocess.PIPE, text=True, timeout=timeout)
     return p.returncode, p.stdout.split("\n"), p.stderr
+
+
+# ----------------------------------------------------------------------------- stack directories
+
+def opt_line(cfg):
+    return "\t".join(["opt", str(cfg["blocksize"]), str(cfg["restart"]), "1" if cfg["unaligned"] else "0", "1" if cfg["skipindex"] else "0",
+                      cfg["hash"], "1" if cfg["exact"] else "0", "0", "0"])
+
+
+def hexhash_tok(tok, hs):
+    """the drivers of the store family use short tokens for hashes: token bytes padded with zeros"""
+    if tok == "":
+        return ""
+    b = tok.encode("latin-1")[:hs]
+    return binascii.hexlify(b + bytes(hs - len(b))).decode()
+
+
+def stack_input(history, with_txns):
+    """in.txt for `cdriver stackread|stackwrite`: the configuration and (for stackwrite) the transactions of the history"""
+    cfg = history["cfg"]
+    hs = 20 if cfg["hash"] == "sha1" else 32
+    L = [opt_line(cfg)]
+    if with_txns:
+        for s in history["steps"]:
+            if s["op"] == "add":
+                L.append("txn")
+                p = s["parts"][0]
+                for r in sorted(p["refs"], key=lambda r: r["n"]):
+                    k, a, b = r["v"]
+                    if k == "s":
+                        a = hx(a)
+                    else:
+                        a, b = hexhash_tok(a, hs), hexhash_tok(b, hs)
+                    L.append("\t".join(["ref", hx(r["n"]), "0", k, a, b]))
+                for l in sorted(p["logs"], key=lambda l: (l["n"], -(l["i"] or 10 ** 9))):
+                    if l.get("del"):
+                        L.append("\t".join(["log", hx(l["n"]), str(l["i"]), "1", "", "", "", "", "0", "0", ""]))
+                    else:
+                        L.append("\t".join(["log", hx(l["n"]), str(l["i"]), "0", hexhash_tok(l["old"], hs), hexhash_tok(l["new"], hs), hx(l["user"]), hx(l["email"]),
+                                            str(l["time"]), str(l["tz"]), hx(l["msg"])]))
+                L.append("commit")
+            elif s["op"] == "compact":
+                L.append("compactall")
+    return "\n".join(L) + "\n"
+
+
+def tok(hexs):
+    return binascii.unhexlify(hexs).rstrip(b"\x00").decode("latin-1") if hexs else ""
+
+
+def stack_view_event(names_rank, line, h, tag="C15"):
+    """the final view printed by cdriver stack* -> a TraceStore view event (store-family vocabulary: hash tokens, digests)"""
+    e = json.loads(line)
+    refs, logs = [], []
+    for r in e["refs"]:
+        name = unhx(r[0])
+        kind, a, b = r[2], r[3], r[4]
+        if kind == "s":
+            a = unhx(a)
+        elif kind in ("v", "p"):
+            a, b = tok(a), tok(b)
+        refs.append([names_rank.get(name, 0), r[1], [kind, a, b]])
+    for l in e["logs"]["l"]:
+        name = unhx(l[0])
+        if l[2]:
+            logs.append([names_rank.get(name, 0), l[1], "", 0])
+        else:
+            dig = "%s|%s|%s|%s|%d|%d|%s" % (l[3], l[4], unhx(l[5]), unhx(l[6]), l[7], l[8], go_quote(unhx(l[9])))
+            logs.append([names_rank.get(name, 0), l[1], dig, l[7]])
+    ok = e["referr"] == 0 and e["logerr"] == 0
+    return {"op": "view", "h": h, "tag": tag, "hasraw": False, "ok": ok, "refs": refs, "logs": logs, "rawrefs": [], "rawlogs": [],
+            "err": "" if ok else "C: %d/%d" % (e["referr"], e["logerr"])}
